@@ -151,6 +151,33 @@ Theorem C18_shared_header_refuted :
                  r = proof_of sha256 wit_root wit_calls t).
 Proof. exact shared_header_refuted. Qed.
 
+(** Pruning is by POSITION: a position none of whose prefixes is pruned keeps
+    its data even when a cell of exactly the same content ([x] again, at
+    position [q]) IS pruned elsewhere — equal subtrees of a dictionary (a set
+    with a constant value, mirrored keys) are such positions, whether they are
+    distinct cells (tree built in memory) or one shared cell (tree from a BOC).
+    This is an instance of C18_unpruned_path_keeps_data; it is stated because
+    the Go code once pruned by cell identity, which violates it for shared cells
+    (repaired), and a pruned set keyed by hash violates it for all (refuted
+    below). *)
+Theorem C18_equal_content_elsewhere_not_pruned :
+  forall (H : bytes -> bytes) c pruned c' p q x,
+  prune H pruned [] c = Ok c' ->
+  subcell c p = Some x -> subcell c q = Some x -> pruned q = true ->
+  (forall k, (k <= length p)%nat -> pruned (firstn k p) = false) ->
+  exists x', subcell c' p = Some x' /\ cell_bits x' = cell_bits x.
+Proof.
+  intros H c pruned c' p q x Hpr Hp _ _ Hnp.
+  destruct (unpruned_path_keeps_data H p c pruned [] c' x Hpr Hnp Hp) as (x' & A & B & _).
+  exists x'. split; assumption.
+Qed.
+
+Theorem C18_content_keyed_prune_refuted :
+  pruned_at (Some (Some (prove_key sha256 twin_dict [true] 32))) [0%nat] = Some true /\
+  pruned_at (Some (Some (prove_key sha256 twin_dict [true] 32))) [1%nat] = Some false /\
+  pruned_at (Some (Some (prove_key_by_content twin_dict [true]))) [1%nat] = Some true.
+Proof. exact content_keyed_prune_refuted. Qed.
+
 Print Assumptions C18_interleaving_independent.
 Print Assumptions C18_key_proof_reveals.
 Print Assumptions C18_prune_preserves_level0.
